@@ -2512,3 +2512,40 @@ def rewriter_enters_the_method(ctx):
     from .rewriter import law_own_definition_is_entered
 
     law_own_definition_is_entered(ctx)
+
+
+def recompiled_method_keeps_private_names(ctx):
+    from . import recodeexec
+
+    recodeexec.law(ctx, "private-names")
+
+
+def class_argument_matches_its_metaclass(ctx):
+    """A class passed as an argument is keyed type[X] as soon as some method of the function annotates that position
+    with type[...]: a method annotated with X's metaclass must still match it, or the mere presence of an
+    inapplicable type[...] method changes the outcome."""
+    import abc
+    import typing
+
+    repo = ctx.repo
+    sc, en = A.subclasscheck_fn(repo), A.order_enum(repo)
+    ctx.touch(sc)
+    order_ns = Record(merge=HostFn(lambda orders: _ref_merge(list(orders))), **_ORD)
+    funcs = {n: g.node for n, g in sc.module.funcs.items() if g.parent is None and g.cls is None}
+    genv = {en.name: order_ns, "NotImplemented": NotImplemented, "get_origin": typing.get_origin, "get_args": typing.get_args, "UnionTypes": (), "typing": typing, "Any": typing.Any, "TypeError": TypeError}
+    hi = HostInterp({}, Record(), {}, globals_env=genv, classes={}, functions=funcs)
+    hi.host_types = hi.host_types + (_Ord,)
+    Abs = abc.ABCMeta("Abs", (), {})
+    try:
+        got_meta = hi.call_function(sc.node, [type[Abs], abc.ABCMeta], {}, {})
+    except Raised as e:
+        got_meta = f"raises {e.what}"
+    except TypeError as e:
+        got_meta = f"raises TypeError ({e})"
+    ctx.ob(
+        f"{sc.key}:class-against-its-metaclass",
+        sc.loc(),
+        "type[X] is a subtype of the metaclass of X: a class argument keeps matching a method annotated with its metaclass when another method's type[...] annotation switches the position to type-valued keys (subtype test interpreted on a real ABC)",
+        got_meta is True,
+        f"subclasscheck(type[Abs], ABCMeta) {got_meta if isinstance(got_meta, str) else 'answers ' + repr(got_meta)} although Abs is an instance of ABCMeta: registering a type[...] method that is not applicable to the call changes which method a class argument reaches",
+    )
